@@ -1,7 +1,7 @@
 (* C04 -- the pilot scheduler neither loses nor starves tasks.  Statements only. *)
 From Coq Require Import ZArith List Bool Sorted.
 From RP Require Import Sched.Model Sched.NodeMap Sched.Inv Sched.SchedProofs Sched.RunProofs Sched.LiveProofs
-                       Sched.CancelProofs Sched.ConsProofs.
+                       Sched.CancelProofs Sched.ConsProofs Sched.PrioProofs.
 Import ListNotations.
 Open Scope Z_scope.
 
@@ -102,3 +102,39 @@ Example C04_nonvacuous :
   | None => False
   end.
 Proof. vm_compute. reflexivity. Qed.
+
+(* "when a release lets only one of two waiting tasks run, the one with the
+   higher priority is started".
+   _partial: proved for two waiting tasks in two priority pools (the property's
+   literal case): the higher-priority task is tried first, on the state exactly
+   as the release left it, and is started in this pass if it fits there. *)
+Theorem C04_higher_priority_first_partial :
+  forall c s H L pH pL,
+    pL < pH ->
+    (waitpool s = [(pH, [H]); (pL, [L])] \/ waitpool s = [(pL, [L]); (pH, [H])]) ->
+    r_env H = None ->
+    forall s' rest res act evs,
+      schedule_waitpool c s [[(r_uid H, true)]; [(r_uid L, true)]] = Some (s', rest, res, act, evs) ->
+      match snd (try_allocation c s H) with
+      | TStarted slH => In (Started (r_uid H) slH) evs
+      | _ => True
+      end.
+Proof. exact higher_priority_tried_first. Qed.
+Print Assumptions C04_higher_priority_first_partial.
+
+(* _refuted in general (recorded finding): with more tasks in the higher
+   priority pool ru.lazy_bisect leaves tasks unchecked when tasks near them in
+   the size-sorted pool failed; such a task that fits the idle pilot keeps
+   waiting while a lower-priority task is started.  The witness is the history
+   the harness found on the real scheduler, strategy as recorded from the real
+   ru.lazy_bisect. *)
+Theorem C04_higher_priority_first_refuted :
+  exists s' rest res act evs slL slH,
+    schedule_waitpool wit_cfg wit_state wit_strat = Some (s', rest, res, act, evs) /\
+    r_prio wit_L < r_prio wit_H /\
+    In (Started (r_uid wit_L) slL) evs /\
+    (forall sl, ~ In (Started (r_uid wit_H) sl) evs) /\
+    In wit_H (concat (map snd (waitpool s'))) /\
+    snd (try_allocation wit_cfg wit_state wit_H) = TStarted slH.
+Proof. exact higher_priority_first_refuted. Qed.
+Print Assumptions C04_higher_priority_first_refuted.
